@@ -863,6 +863,10 @@ func observeCouples(r *cpRes) []Sx {
 			obs = append(obs, T("dec", A("ok"), cpFrom(dec.(leaves.CouplesResult)).sx()))
 		}
 	}
+	// text: no PrintMatrix block in this format; it is only run
+	tbuf := &bytes.Buffer{}
+	_, p3 := Catch(func() { err = an.Serialize(r.build(), false, tbuf) })
+	obs = append(obs, T("text", status(err, p3)))
 	return obs
 }
 
@@ -1421,15 +1425,20 @@ func main() {
 		for _, cs := range c.ReplayCases() {
 			f, _ := cs.Field("res")
 			v := f.Args()[0]
+			// the generator kind is kept: the two known deviations are recognised in their own streams only
+			kind := "replay"
+			if k, ok := cs.Field("kind"); ok && len(k.Args()) == 1 {
+				kind = k.Args()[0].Atom
+			}
 			switch v.Tag() {
 			case "burndown":
-				emitBd(c, "replay", bdOf(v))
+				emitBd(c, kind, bdOf(v))
 			case "devs":
-				emitDv(c, "replay", dvOf(v))
+				emitDv(c, kind, dvOf(v))
 			case "couples":
-				emitCp(c, "replay", cpOf(v))
+				emitCp(c, kind, cpOf(v))
 			case "matrix":
-				emitMx(c, "replay", matOf(must(v, "m").Args()[0]), must(v, "fix").Args()[0].Int() != 0)
+				emitMx(c, kind, matOf(must(v, "m").Args()[0]), must(v, "fix").Args()[0].Int() != 0)
 			}
 		}
 		return
@@ -1465,13 +1474,13 @@ func main() {
 			emitBd(c, "ex-people", &bdRes{global: mat{{1}}, people: []mat{{{1}}, {{0}}}, names: []string{"dev", ""}, pm: m, tick: 1, samp: 1, gran: 1})
 		})
 	}
-	for i := c.Count(10000, 300000); i > 0; i-- {
+	for i := c.Count(10000, 60000); i > 0; i-- {
 		emitBd(c, "bd", g.burndown(false))
 	}
-	for i := c.Count(1500, 30000); i > 0; i-- {
+	for i := c.Count(1500, 10000); i > 0; i-- {
 		emitBd(c, "bd-out", g.burndown(true))
 	}
-	for i := c.Count(1500, 30000); i > 0; i-- {
+	for i := c.Count(1500, 10000); i > 0; i-- {
 		emitBd(c, "bd-malformed", g.burndownMalformed())
 	}
 	// C17_SKIP_FINDINGS=1 leaves out the two streams below (used while testing mutants, so that the two open
@@ -1479,14 +1488,14 @@ func main() {
 	skipFindings := os.Getenv("C17_SKIP_FINDINGS") == "1"
 	// results as BurndownAnalysis.Finalize makes them with a people dictionary read from a file: the list of
 	// names ends with the pseudo-developer "<unmatched>" and is one longer than PeopleHistories
-	for i := c.Count(300, 5000); i > 0 && !skipFindings; i-- {
+	for i := c.Count(300, 2000); i > 0 && !skipFindings; i-- {
 		r := g.burndown(false)
 		r.names = append(r.names, "<unmatched>")
 		emitBd(c, "bd-loaded-dict", r)
 	}
 	// ... and hand-made results with a file history that has no ownership table (BurndownAnalysis.Finalize
 	// made such results for a file living on another head only, until the repair 909b314)
-	for i := c.Count(300, 5000); i > 0 && !skipFindings; i-- {
+	for i := c.Count(300, 2000); i > 0 && !skipFindings; i-- {
 		r := g.burndown(false)
 		if len(r.own) > 0 {
 			k := c.Rng.Intn(len(r.own))
@@ -1494,22 +1503,22 @@ func main() {
 		}
 		emitBd(c, "bd-no-ownership", r)
 	}
-	for i := c.Count(10000, 300000); i > 0; i-- {
+	for i := c.Count(10000, 60000); i > 0; i-- {
 		emitDv(c, "dv", g.devs(false))
 	}
-	for i := c.Count(1500, 30000); i > 0; i-- {
+	for i := c.Count(1500, 10000); i > 0; i-- {
 		emitDv(c, "dv-out", g.devs(true))
 	}
-	for i := c.Count(8000, 240000); i > 0; i-- {
+	for i := c.Count(8000, 50000); i > 0; i-- {
 		emitCp(c, "cp", g.couples(false, false))
 	}
-	for i := c.Count(2000, 60000); i > 0; i-- {
+	for i := c.Count(2000, 10000); i > 0; i-- {
 		emitCp(c, "cp-loaded-dict", g.couples(false, true))
 	}
-	for i := c.Count(1500, 30000); i > 0; i-- {
+	for i := c.Count(1500, 10000); i > 0; i-- {
 		emitCp(c, "cp-out", g.couples(true, c.Rng.Intn(2) == 0))
 	}
-	for i := c.Count(800, 20000); i > 0; i-- {
+	for i := c.Count(800, 5000); i > 0; i-- {
 		emitCp(c, "cp-malformed", g.couplesMalformed())
 	}
 }
